@@ -208,3 +208,23 @@ def _pit_manual_bn(v):
     if str(d.get('sig', '')).startswith('pit:output'):
         return d.get('batchnorm_after_user_placed_layer') is True
     return False
+
+
+@predicate('maupiti-final-conv2d-not-rescaled')
+def _maupiti_final_conv(v):
+    """MAUPITIConv2d as the final (not re-quantised) layer: forward returns conv(x, W_int, b_int) on
+    the offset-signed integer input, without the scale/shift rescaling and the input-offset
+    compensation (`_zero_point` is computed and never used), unlike MAUPITILinear's last-layer path."""
+    d = _d(v)
+    return v['monitor'] == 'final-layer' and d.get('sig') == 'maupiti:last' and \
+        d.get('final_layer_kind') == 'conv' and d.get('layer') == d.get('final_layer')
+
+
+@predicate('maupiti-final-conv2d-without-bias-crash')
+def _maupiti_final_conv_nobias(v):
+    """the same unfinished path: with a bias-free final Conv2d `self.bias` is None and the
+    `_zero_point` expression raises TypeError inside integerize_arch."""
+    d = _d(v)
+    return v['monitor'] == 'integerize-crash' and d.get('sig') == 'maupiti:TypeError' and \
+        d.get('final_layer_kind') == 'conv' and d.get('final_layer_has_bias') is False and \
+        "'NoneType' and 'Tensor'" in str(d.get('exc', ''))
